@@ -362,21 +362,28 @@ def quick_valid(pc, goal, timeout_ms=2000):
 _QV_MEMO = {}
 
 
+QV_RLIMIT = 600000      # z3 resource units, not seconds: the same verdict on an idle and on a loaded machine
+
+
 def _quick_valid(pc, goal, timeout_ms):
     pc2, goal2 = resolve_ites(list(pc), goal)
     f = z3.And(*pc2, z3.Not(goal2)) if pc2 else z3.Not(goal2)
     if has_quantifier(f):
         s2 = z3.Solver()
-        s2.set('timeout', timeout_ms)      # E-matching saturates quickly when there is no proof; a generous cap only matters under load
+        s2.set('rlimit', QV_RLIMIT)
         s2.set('auto_config', False)
         s2.set('mbqi', False)
         s2.add(f)
         if s2.check() == z3.unsat:
             return True
+        s = z3.Solver()
+        # exploration-time question: a proof by instantiation has been tried above; the default
+        # configuration gets the same deterministic budget (a miss costs precision, never soundness)
+        s.set('rlimit', QV_RLIMIT)
+        s.add(f)
+        return s.check() == z3.unsat
     s = z3.Solver()
-    # exploration-time question: a proof by instantiation has been tried above; the default
-    # configuration gets a short budget only (a miss costs precision, never soundness)
-    s.set('timeout', min(timeout_ms, 250) if has_quantifier(f) else timeout_ms)
+    s.set('timeout', timeout_ms)
     s.add(f)
     return s.check() == z3.unsat
 
